@@ -266,6 +266,12 @@ func (c *FnCtx) resolver(fr *frame, li *loopInfo, results []Val) func(string) (V
 				}
 			}
 		}
+		if li != nil {
+			// inside a loop a (reassigned) parameter denotes its current value
+			if v, ok := c.debugLookup(fr, li, name); ok {
+				return v, true
+			}
+		}
 		for _, p := range fn.Params {
 			if p.Name() == name {
 				return fr.regs[p], true
@@ -380,6 +386,15 @@ func (c *FnCtx) evalClause(fr *frame, st *State, cl *Clause, li *loopInfo) strin
 		preds = fr.con.Preds
 	}
 	ec := &evalCtx{c: c, st: st, old: c.entry, pkg: pkg, preds: preds, names: c.resolver(fr, li, nil)}
+	ec.entryName = func(name string) (Val, bool) {
+		for _, p := range fr.fn.Params {
+			if p.Name() == name {
+				v, ok := fr.regs[p]
+				return v, ok
+			}
+		}
+		return Val{}, false
+	}
 	ec.loopVar = func(n int, name string) (Val, bool) {
 		for _, l := range fr.loops {
 			if l.ord == n {
